@@ -47,10 +47,10 @@ def match_cases2d(draw, tier="quick", ties=False):
     big = tier == "thorough"
     mg = draw(st.sampled_from([4, 8, 20] if big else [3, 6, 10]))
     sc = draw(GEN.scenes2d(max_gt=mg, max_est=mg, ties=ties, fam=draw(st.sampled_from(["autoware", "autoware", "tl"]))))
-    mode = draw(GEN.modes2d())
+    mode = draw(st.sampled_from(["CENTERDISTANCE", "CENTERDISTANCE", "IOU2D"]))
     n = len(sc["targets"])
     radii = None
-    if mode == "CENTERDISTANCE" and draw(st.booleans()):
+    if mode == "CENTERDISTANCE" and draw(st.integers(0, 2)) > 0:
         radii = draw(GEN.per_label(n, st.sampled_from([3.0, 20.0, 100.0, 500.0])))
     sc.update(
         {
